@@ -141,7 +141,65 @@ def body(case, rec):
                       f"bits={b}: {[(int(a), int(c)) for a, c in zip(ref, img) if a != c][:3]}")
 
 
-PARTS = {"adc": body, "k3_bits_ge_54": body}
+# ------------------------------------------------------------------ "every signal frame": frames of detector-like size
+def large_cases():
+    out = []
+    for shape in ([1100, 1000], [1025, 1024], [700, 1500], [1024, 1024]):
+        for conv, bits in (("simple", 16), ("sar", 12), ("sar_noise", 12), ("sar_noise", 8)):
+            out.append({"shape": shape, "conv": conv, "bits": bits, "vmin": -1.0, "vmax": 3.0, "seed": shape[0] + bits})
+    return out
+
+
+def body_large(case, rec):
+    from pyxel.models.readout_electronics import sar_adc, sar_adc_with_noise, simple_adc
+
+    b, vmin, vmax, conv = case["bits"], case["vmin"], case["vmax"], case["conv"]
+    K = 2**b - 1
+    rows, cols = case["shape"]
+    rec.cls(f"large:{conv}", f"large:pixels:{rows * cols}")
+    rec.nt(rows * cols > 2**20)
+    rng = np.random.RandomState(case["seed"])
+    sig = rng.uniform(vmin - 0.5, vmax + 0.5, size=(rows, cols))
+    sig[-1, -8:] = vmax + 1.0  # the very last pixels of the frame are above the range
+    sig[0, :8] = vmin - 1.0
+    det = build_detector(simple_spec("CCD", row=rows, col=cols, adc_bit_resolution=b, adc_voltage_range=[vmin, vmax]))
+
+    def convert(which):
+        det.signal.array = sig.copy()
+        if which == "simple":
+            simple_adc(det)
+        elif which == "sar":
+            sar_adc(det)
+        else:
+            sar_adc_with_noise(det, strengths=tuple([0.0] * b), noises=tuple([0.0] * b))
+        return np.array(det.image.array, copy=True)
+
+    img = None
+    with rec.must_not_raise("conversion_failed"):
+        img = convert(conv)
+    if img is None:
+        return
+    rec.check(img.shape == sig.shape and img.dtype.kind == "u" and img.dtype.itemsize * 8 >= b, "dtype_too_narrow_or_signed", f"{img.shape} {img.dtype}")
+    rec.check(int(img.max()) <= K, "code_out_of_range", f"max code {int(img.max())} full scale {K}")
+    order = np.argsort(sig, axis=None, kind="stable")
+    sc, sv = img.ravel()[order].astype(np.int64), sig.ravel()[order]
+    drop = np.nonzero((np.diff(sc) < 0) & (np.diff(sv) > 0))[0]
+    rec.check(drop.size == 0, "not_monotone", lambda: f"{conv} {rows}x{cols}: v={sv[drop[0]]!r} -> {sc[drop[0]]} but v={sv[drop[0] + 1]!r} -> {sc[drop[0] + 1]} ({drop.size} places)")
+    hi, lo = img[sig >= vmax], img[sig <= vmin]
+    if conv == "simple":
+        rec.check(bool(np.all(hi == K)), "above_maximum_not_full_scale", lambda: f"{rows}x{cols}: {int(np.sum(hi != K))} pixels at or above the maximum are not at full scale {K}")
+        rec.check(bool(np.all(lo == 0)), "below_minimum_not_zero", lambda: f"{rows}x{cols}: {int(np.sum(lo != 0))} pixels")
+    if conv == "sar_noise":
+        ref = None
+        with rec.must_not_raise("conversion_failed"):
+            ref = convert("sar")
+        if ref is not None:
+            diff = np.argwhere(ref != img)
+            rec.check(ref.dtype == img.dtype and diff.size == 0, "noisy_sar_with_zero_noise_differs",
+                      lambda: f"bits={b} {rows}x{cols}: {len(diff)} pixels differ, first at {diff[0].tolist()}: sar {int(ref[tuple(diff[0])])} noisy {int(img[tuple(diff[0])])}")
+
+
+PARTS = {"adc": body, "k3_bits_ge_54": body, "large_frames": body_large}
 
 
 def known_key(part, clause, case, detail):
@@ -156,4 +214,5 @@ def plan(tier):
         Part(name="adc", kind="enum", cases=exhaustive_cases, exhaustive=True, label="all_transitions_4_to_12_bits"),
         Part(name="adc", kind="gen", strategy=cases, examples=n, label="generated"),
         Part(name="k3_bits_ge_54", kind="enum", cases=k3_cases, shards=1),
+        Part(name="large_frames", kind="enum", cases=large_cases),
     ]
